@@ -339,7 +339,7 @@ struct WorldTracker : Monitor {
 	{
 		if (!s || !s->owner || s->owner == w->srv || d.data.size() < 2 || d.dst.port != 53) return;
 		auto &q = w->recent_ids[s->owner->name];
-		q.push_back((uint16_t)((d.data[0] << 8) | d.data[1])); if (q.size() > 4) q.pop_front();
+		q.push_back((uint16_t)((d.data[0] << 8) | d.data[1])); if (q.size() > 20) q.pop_front();
 	}
 	void on_block(Task &t) override
 	{
